@@ -461,33 +461,49 @@ def isRemoveCoordinate (num root offset : Nat) : Res Bool :=
 def concerns (ignore : Bool) (sheetName ws selfWs : List Char) : Bool :=
   ignore || (sheetName = [] && ws = selfWs) || sheetName = ws
 
-def insertPart (p : Part) (root offset : Nat) : Res Part :=
-  match insertCoordinate p.1 root offset with
-  | .ok n => .ok (n, p.2)
-  | .panic => .panic
+/-- `insert_part` (the Rust adds two `u32` in `u64`: no overflow): a number at or behind the
+    insertion point moves by `offset` whatever its `$` flag; pushed beyond `max` it is cut off at
+    `max` when it ends a range and `none` (the cell no longer exists) otherwise -/
+def insertPart (p : Part) (root offset max : Nat) (isEnd : Bool) : Option Part :=
+  if p.1 < root || offset = 0 then some p
+  else if p.1 + offset ≤ max then some (p.1 + offset, p.2)
+  else if isEnd then some (max, p.2) else none
 
-def optRes {α β} (f : α → Res β) : Option α → Res (Option β)
-  | none => .ok none
-  | some a => match f a with | .ok b => .ok (some b) | .panic => .panic
-
-def insertCoord (rc oc rr orr : Nat) (s : List Char) : Res (List Char) :=
+/-- one corner text (`isEnd` = `index != 0`): `.ok none` = reference error -/
+def insertCoord (rc oc rr orr : Nat) (isEnd : Bool) (s : List Char) : Res (Option (List Char)) :=
   match parseCorner s with
-  | none => .ok s
+  | none => .ok (some s)
   | some (col, row) =>
-    match optRes (fun p => insertPart p rc oc) col with
-    | .panic => .panic
-    | .ok col' =>
-      match optRes (fun p => insertPart p rr orr) row with
+    let col' := col.map (fun p => insertPart p rc oc maxCol isEnd)
+    let row' := row.map (fun p => insertPart p rr orr maxRow isEnd)
+    if col' = some none || row' = some none then .ok none
+    else
+      match renderCorner (col'.join, row'.join) with
+      | .ok t => .ok (some t)
       | .panic => .panic
-      | .ok row' => renderCorner (col', row')
+
+/-- the `for (index, coordinate) in coordinate_list.iter().enumerate()` loop with its `break` on
+    error; `isEnd` says whether the head of the list has `index != 0` -/
+def insertList (rc oc rr orr : Nat) (isEnd : Bool) : List (List Char) → Res (Option (List (List Char)))
+  | [] => .ok (some [])
+  | s :: rest =>
+    match insertCoord rc oc rr orr isEnd s with
+    | .panic => .panic
+    | .ok none => .ok none
+    | .ok (some t) =>
+      match insertList rc oc rr orr true rest with
+      | .panic => .panic
+      | .ok none => .ok none
+      | .ok (some ts) => .ok (some (t :: ts))
 
 def insertTok (rc oc rr orr : Nat) (ws selfWs : List Char) (ignore : Bool) (t : Tok) : Res Tok :=
   if isRangeOperand t then
     let (q, name, range) := splitSheetQualifier t.val
     if concerns ignore name ws selfWs then
-      match mapRes (insertCoord rc oc rr orr) (splitColon range) with
+      match insertList rc oc rr orr false (splitColon range) with
       | .panic => .panic
-      | .ok l => .ok { t with val := q ++ joinColon l }
+      | .ok none => .ok (refErrorTok t)
+      | .ok (some l) => .ok { t with val := q ++ joinColon l }
     else .ok t
   else .ok t
 
